@@ -322,4 +322,19 @@ META["C06"] = {
     "assumptions": ["comprehension / class-model corpus bounded as stated"],
 }
 
+META["C03"] = {
+    "level": "exploration",
+    "level_text": "Bounded contract check only (as planned in DESIGN §4 C03 / §5): generated source "
+    "files place lambdas in ~100 (quick) / ~950 (thorough) layouts x enclosing contexts; the "
+    "lambda recorded for every call must be structurally the one the generator wrote at that call, "
+    "or the library must raise; documented layouts must be recovered without error. The tokenizer / "
+    "inspect.findsource heuristic is outside any verifier available here; no obligation is "
+    "discharged deductively for this property.",
+    "level_note": "Bounded stand-in; CPython's tokenize / inspect are unmodelled externals.",
+    "technique": "bounded contract check of the parse_as_ast contract on generated source layouts (labelled stand-in; no deductive content — stated in DESIGN)",
+    "p_keys": False,
+    "explanation": "bounded only",
+    "assumptions": ["layout grammar bounded as listed in the rule"],
+}
+
 NOT_APPLICABLE = {}
